@@ -72,9 +72,8 @@ PROPS = {
         "explanation": "normalize() runs for real on symbolic spans (paving cuts fork through the solver); meaning preserved at every minute of every probe day.",
     },
     "C08": {
-        "engines": ["K", "S"],
-        "bounds": ["K: schedule_at(d) is empty for every chrono-representable date d outside 1900..=9999 (years -262000..262000) on a 24/7 expression",
-                   "S: windows 1899-12-30..1900-01-02, 9999-12-30..10000-01-02, 1700-03-01..03, 12000-03-01..03, 9999-12-31 and three windows in years congruent to 2024 modulo 2^16, symbolic seconds at both ends; 5 expression shapes with symbolic spans/kinds",
+        "engines": ["S"],
+        "bounds": ["S: windows 1899-12-30..1900-01-02, 9999-12-30..10000-01-02, 1700-03-01..03, 12000-03-01..03, 9999-12-31 and three windows in years congruent to 2024 modulo 2^16, symbolic seconds at both ends; 5 expression shapes with symbolic spans/kinds",
                    "S c16: with an interval-size bound in the context, no reported interval of iter_range leaves the requested window"],
         "outside_bounds": ["other expressions; selector hints beyond 10000-01-01 are tolerated (the iterator clips them)"],
         "stubs": [],
